@@ -288,11 +288,11 @@ Section Oracles.
       rewrite L. unfold in_net. cbn [fst snd]. reflexivity.
   Qed.
 
-  Lemma scan_true v4 v6 l : scan false v4 v6 l = CTrue -> existsb (ematch v4 v6) l = true.
+  Lemma scan_true r v4 v6 l : scan r v4 v6 l = CTrue -> existsb (ematch v4 v6) l = true.
   Proof.
     induction l as [|e l IH]; cbn [Match.scan existsb]; [discriminate|].
     destruct e as [s|]; [|discriminate]. cbn [ematch].
-    destruct (parse_ip true s) as [[[f nb] m]|]; [|exact IH].
+    destruct (parse_ip true s) as [[[f nb] m]|]; [|destruct r; [discriminate|exact IH]].
     destruct f.
     - destruct v4 as [a|]; [|exact IH]. destruct (in_subnet a nb m); [reflexivity|exact IH].
     - destruct (in_subnet v6 nb m); [reflexivity|exact IH].
@@ -328,10 +328,10 @@ Section Oracles.
   Qed.
 
   (* True only for a member of the 128-bit embedding (for any collection, also with ill-typed entries) *)
-  Theorem contains_sound set addr : contains false set addr = CTrue -> member set addr = true.
+  Theorem contains_sound r set addr : contains r set addr = CTrue -> member set addr = true.
   Proof.
-    unfold Match.contains. destruct (split46 addr) as [[v4 v6]|] eqn:S; [|discriminate].
-    intros H. rewrite (member_existsb _ _ _ _ S). now apply scan_true.
+    unfold Match.contains. destruct (split46 addr) as [[v4 v6]|] eqn:S; [|destruct r; discriminate].
+    intros H. rewrite (member_existsb _ _ _ _ S). now apply scan_true with r.
   Qed.
 
   (* for collections of strings: exactly the members; malformed client or entries contribute nothing *)
